@@ -9,9 +9,11 @@ ID = 'C08'
 RULE = ('Hypothesis **kern scores organised in measures (see C07) x EVERY range 1 <= a <= b <= M, exported with '
         'spine_types=["**kern"].  Claimed core: signatures (clef, key signature, time signature, meter symbol; the same '
         'kinds on every spine, possibly different values) only before the first measure, splits re-joined before the '
-        'next barline.  Three explored profiles, tracked as findings: "sig-change" (signatures change after measure 1, '
-        'also inside sub-spines and on some spines only), "in-split" (a split stays open across barlines so ranges start '
-        'inside it), "non-kern" (other spines left in the excerpt).  Oracle: (1) an independent Humdrum well-formedness '
+        'next barline.  Three further profiles cover the classes the property designates as explored: "sig-change" '
+        '(signatures change after measure 1, also inside sub-spines and on some spines only), "in-split" (a split stays '
+        'open across barlines so ranges start inside it), "non-kern" (other spines left in the excerpt); the four '
+        'defects found there were repaired (fix: commits 134ff72, b848750, 9b3aeea), so all clauses are now enforced '
+        'in every profile.  Oracle: (1) an independent Humdrum well-formedness '
         'validator (kv/humdrum.py) accepts the excerpt; (2) kernpy.loads(excerpt) reports no errors; (3) an '
         'independent text-level signature tracker is run over the source and over the excerpt, the k-th note cell of '
         'the excerpt corresponds to the k-th note cell of the range (C07) and its governing (clef, key signature, time '
